@@ -70,6 +70,38 @@ class _Runtime:
             raise Unsupported('invariant of loop %d of %s does not describe modified variable(s) %s' % (k, self.fname, missing))
         return (i,) + tuple(st[n] for n in names)
 
+    # descending loops `for n in range(a, b, -1)`: the invariant is indexed by the NEXT value of the loop variable
+    # (a at entry; n at the head of the iteration that processes n; n - 1 after it; min(a, b) at exit)
+    def begin_for_desc(self, k, a, b, env):
+        inv = self.invs[k]
+        a, b = lift(a), lift(b)
+        for label, c in inv.holds(env, a):
+            check('loop%d/establish/%s' % (k, label), c)
+        return a, b
+
+    def havoc_for_desc(self, k, phase, a, b, names, env):
+        inv = self.invs[k]
+        if phase == 'iter':
+            i = fresh_int('it%d' % k)
+            ctx.add(i.z <= a.z)
+            ctx.add(i.z > b.z)
+            ctx.add_hint(i)
+        else:
+            i = sc.ite(a < b, a, b)
+        st = inv.state(env, i)
+        self.frames[k] = i
+        missing = [n for n in names if n not in st]
+        if missing:
+            raise Unsupported('invariant of loop %d of %s does not describe modified variable(s) %s' % (k, self.fname, missing))
+        return (i,) + tuple(st[n] for n in names)
+
+    def preserve_for_desc(self, k, env):
+        inv = self.invs[k]
+        i = self.frames[k]
+        for label, c in inv.holds(env, i - 1):
+            check('loop%d/preserve/%s' % (k, label), c)
+        raise StopPath()
+
     def havoc_while(self, k, phase, names, env):
         inv = self.invs[k]
         st = inv.state(env, None)
@@ -180,10 +212,17 @@ class _Rewriter(ast.NodeTransformer):
         if self._has_escape(node.body) or node.orelse:
             raise Unsupported('loop %d has break/continue/return/else' % k)
         it = node.iter
-        if not (isinstance(it, ast.Call) and isinstance(it.func, ast.Name) and it.func.id == 'range' and 1 <= len(it.args) <= 2):
-            raise Unsupported('loop %d is not `for .. in range(a[, b])`' % k)
+        desc = False
+        if isinstance(it, ast.Call) and isinstance(it.func, ast.Name) and it.func.id == 'range' and len(it.args) == 3:
+            st = it.args[2]
+            if isinstance(st, ast.UnaryOp) and isinstance(st.op, ast.USub) and isinstance(st.operand, ast.Constant) and st.operand.value == 1:
+                desc = True
+            else:
+                raise Unsupported('loop %d: range step other than -1' % k)
+        elif not (isinstance(it, ast.Call) and isinstance(it.func, ast.Name) and it.func.id == 'range' and 1 <= len(it.args) <= 2):
+            raise Unsupported('loop %d is not `for .. in range(a[, b])` / `range(a, b, -1)`' % k)
         lo = ast.Constant(0) if len(it.args) == 1 else it.args[0]
-        hi = it.args[-1]
+        hi = it.args[1] if desc else it.args[-1]
         names = [n for n in _assigned_names(node.body)]
         tgt = node.target
         if not isinstance(tgt, ast.Name):
@@ -199,6 +238,8 @@ if __pvc_rt.choice({k}):
 else:
     (__i{k}, {names}) = __pvc_rt.havoc_for({k}, 'exit', __lo{k}, __hi{k}, {names_repr}, locals())
 '''.format(k=k, tgt=tgt.id, names=''.join(n + ', ' for n in names), names_repr=repr(tuple(names))).replace('__pvc_rt', self.rt)
+        if desc:
+            src = src.replace('.begin_for(', '.begin_for_desc(').replace('.havoc_for(', '.havoc_for_desc(').replace('.preserve_for(', '.preserve_for_desc(')
         new = ast.parse(textwrap.dedent(src)).body
         return self._splice(new, {'__LO__': lo, '__HI__': hi}, node.body, node)
 
